@@ -223,7 +223,7 @@ func (w *world) opLines(c *call, caller util.Uint160, out *[]string) {
 		}
 		*out = append(*out, fmt.Sprintf("vote %d %s %s", w.aid(c.src), p, cl))
 	case kRegister:
-		*out = append(*out, fmt.Sprintf("register %d", w.pid(c.pub)))
+		*out = append(*out, fmt.Sprintf("register %d %s", w.pid(c.pub), cl))
 	case kUnregister:
 		*out = append(*out, fmt.Sprintf("unregister %d %s", w.pid(c.pub), cl))
 	case kLock:
@@ -374,6 +374,18 @@ func (w *world) coverage(o interface{ Count(string) }, pre, post *absState, xs [
 	}
 	if len(post.gpv) > 0 {
 		o.Count("state:gas-per-vote-records")
+	}
+	for h := range post.blocked {
+		if w.isWallet(h) {
+			o.Count("state:blocked-contract")
+			if !pre.blocked[h] {
+				o.Count("policy:contract-blocked")
+				if a := pre.neo[h]; a != nil && a.vote != nil {
+					o.Count("policy:voting-contract-blocked")
+				}
+			}
+			break
+		}
 	}
 	for i, c := range post.committee {
 		if i < len(w.standby) && !c.pub.Equal(w.standby[i].PublicKey()) {
